@@ -3,7 +3,7 @@ CHECK = {
  'level': 'exploration',
  'rule': 'rapid state machine over one real node (1-5 validators): apply valid blocks (transactions, validator changes, aggregate commits), offer '
          'invalid blocks, delete the tip (with/without temp copy), request deletion of finalized blocks, reorganise above finality, offer siblings of '
-         'the tip (double forging, tie break valid/invalid in the current wall-clock slot), restart, and - a third of the nodes live on a strict in-memory file system - a kill at a drawn file-system operation while a valid block is applied, unsynced data lost, node reopened (the stored finalized height may only move together with the block that raises it). Non-trivial = the finalized height rose at least '
+         'the tip (double forging, tie break valid/invalid in the current wall-clock slot), restart, and - a third of the nodes live on a strict in-memory file system - a kill at a drawn file-system operation while a valid block is applied, unsynced data lost, node reopened (the stored finalized height may only move together with the block that raises it); plus two-node runs over real p2p connections (TestSyncFinality) in which finality rises inside a fast or full sync and the finalize events must account for every raise. Non-trivial = the finalized height rose at least '
          'twice and a delete/reorg/tie break/invalid offer/restart happened after a rise. Distinct by digest of the action log',
  'level_text': 'After every action: finalized height never decreases; every finalized height keeps the block ID first observed for it (also across '
                'restart); after an apply the stored finalized height equals max(previous, maxHeightPrecommitted of the new tip); finalize events chain '
